@@ -885,6 +885,13 @@ class Interp:
             if w is None:
                 raise Unmodelled('try_into: target width unknown')
             if any(x != 0 for x in A[0][1][w:]):
+                if getattr(self, 'fallible_narrowing', False):
+                    # a checked narrowing of a value whose upper bits are unknown: it fits (the upper bits were zero) or it is refused
+                    names_ = {x[0] for x in A[0][1] if isinstance(x, tuple)}
+                    if self.choose('narrowing-fits'):
+                        self.trace.append(('bv-narrow', sorted(names_), w))
+                        return ('adt', 'core::result::Result', 0, [Cell(('bv', tuple(A[0][1][:w]) + (0,) * (64 - w)))])
+                    return ('adt', 'core::result::Result', 1, [Cell(('opaque', 'TryFromIntError'))])
                 raise Unmodelled('try_into may fail: bits above the target width are not known to be zero')
             return ('adt', 'core::result::Result', 0, [Cell(A[0])])
         if name in ('core::convert::From::from', 'core::convert::Into::into', 'core::mem::drop', 'core::hint::black_box',
